@@ -1076,7 +1076,7 @@ func c08Step(c *Ctx) {
 		}
 	}
 	// (or a record private to the iteration whose field holds it: `attempt.ensureStride(); stride = attempt.stride`)
-	for _, d := range deepDefsCells(recArg, wscope) {
+	for _, d := range deepDefsRecords(recArg, wscope) {
 		if ex, isEx := d.(*ssa.Extract); isEx && ex.Tuple == ssa.Value(stepCall) && ex.Index == 0 {
 			ok = true
 		}
